@@ -11,6 +11,7 @@ import (
 	"net"
 	"os"
 	"runtime"
+	"strconv"
 	"strings"
 	"sync"
 	"sync/atomic"
@@ -112,6 +113,92 @@ func message(client, idx int) []byte {
 		}
 	}
 	return ref.DataMessage(h, ref.Template{ID: 256, Fields: fields}, [][]ref.Value{vals})
+}
+
+// ownSocketOnPort reports whether this process still has a descriptor for a listening tcp socket
+// (or a udp socket) bound to the port of addr: the kernel's socket tables give the inodes of the
+// sockets on that port, /proc/self/fd tells which inodes are ours. Without /proc (not Linux) it
+// falls back to re-binding with retries.
+func ownSocketOnPort(addr string, udp bool) (bool, string) {
+	_, portStr, _ := net.SplitHostPort(addr)
+	port, _ := strconv.Atoi(portStr)
+	files := []string{"/proc/self/net/tcp", "/proc/self/net/tcp6"}
+	state := "0A" // LISTEN
+	if udp {
+		files, state = []string{"/proc/self/net/udp", "/proc/self/net/udp6"}, ""
+	}
+	inodes := map[string]bool{}
+	readAny := false
+	for _, f := range files {
+		b, err := os.ReadFile(f)
+		if err != nil {
+			continue
+		}
+		readAny = true
+		for _, line := range strings.Split(string(b), "\n")[1:] {
+			fs := strings.Fields(line)
+			if len(fs) < 10 {
+				continue
+			}
+			i := strings.LastIndex(fs[1], ":")
+			if i < 0 {
+				continue
+			}
+			p, err := strconv.ParseInt(fs[1][i+1:], 16, 32)
+			if err != nil || int(p) != port || (state != "" && fs[3] != state) {
+				continue
+			}
+			inodes[fs[9]] = true
+		}
+	}
+	if !readAny {
+		for k := 0; k < 50; k++ {
+			var err error
+			if udp {
+				var pc net.PacketConn
+				if pc, err = net.ListenPacket("udp", addr); err == nil {
+					pc.Close()
+				}
+			} else {
+				var ln net.Listener
+				if ln, err = net.Listen("tcp", addr); err == nil {
+					ln.Close()
+				}
+			}
+			if err == nil {
+				return false, ""
+			}
+			time.Sleep(100 * time.Millisecond)
+		}
+		return true, "the port could not be bound again within 5 s"
+	}
+	ents, err := os.ReadDir("/proc/self/fd")
+	if err != nil {
+		return false, ""
+	}
+	for _, e := range ents {
+		l, err := os.Readlink("/proc/self/fd/" + e.Name())
+		if err != nil || !strings.HasPrefix(l, "socket:[") {
+			continue
+		}
+		if inodes[strings.TrimSuffix(strings.TrimPrefix(l, "socket:["), "]")] {
+			return true, "descriptor " + e.Name() + " is a socket bound to that port"
+		}
+	}
+	return false, ""
+}
+
+// stopBounded calls Stop and reports whether it returned within 30 s. A Stop that hangs must show
+// up as a failure of the property, not as a check that never finishes.
+func stopBounded(cp *collector.CollectingProcess) bool {
+	done := make(chan struct{})
+	go func() { cp.Stop(); close(done) }()
+	select {
+	case <-done:
+		return true
+	case <-time.After(30 * time.Second):
+		return false
+	}
 }
 
 func collectorGoroutines() string {
@@ -404,19 +491,11 @@ func runCase(c Case) (*ev.Failure, bool) {
 	if g != "" {
 		return ev.Failf("a goroutine of the collecting process is still running after Stop returned:\n%s", firstLines(g, 14)), overlapped
 	}
-	if c.Proto != "udp" {
-		ln, err := net.Listen("tcp", addr)
-		if err != nil {
-			return ev.Failf("the listening socket %s is still bound after Stop: %v", addr, err), overlapped
-		}
-		ln.Close()
-	} else {
-		ua, _ := net.ResolveUDPAddr("udp", addr)
-		pc, err := net.ListenUDP("udp", ua)
-		if err != nil {
-			return ev.Failf("the UDP socket %s is still bound after Stop: %v", addr, err), overlapped
-		}
-		pc.Close()
+	// the process must not hold the listening socket any more. Re-binding the port would also fail
+	// when some other process happens to have taken it meanwhile (a busy machine hands freed ports
+	// out again at once), so the process's own descriptors are inspected instead.
+	if held, how := ownSocketOnPort(addr, c.Proto == "udp"); held {
+		return ev.Failf("the %s socket %s is still held by the process after Stop (%s)", map[bool]string{true: "udp", false: "listening"}[c.Proto == "udp"], addr, how), overlapped
 	}
 	return nil, overlapped
 }
@@ -484,7 +563,7 @@ func genCase(t *rapid.T) Case {
 
 // runQuiet: a connection that delivered a message and then stays connected but quiet for Quiet must
 // still be counted, and its next message must be delivered (meanwhile another client keeps sending).
-func runQuiet(proto string, quiet time.Duration) *ev.Failure {
+func runQuiet(proto string, quiet time.Duration) (fl *ev.Failure) {
 	in := collector.CollectorInput{Address: "127.0.0.1:0", Protocol: "tcp", MaxBufferSize: 65535}
 	if proto == "tls" {
 		in.IsEncrypted, in.ServerCert, in.ServerKey = true, srvCert.CertPEM, srvCert.KeyPEM
@@ -514,7 +593,13 @@ func runQuiet(proto string, quiet time.Duration) *ev.Failure {
 			}
 		}
 	}()
-	defer func() { cp.Stop(); close(stop); <-done }()
+	defer func() {
+		if !stopBounded(cp) && fl == nil {
+			fl = ev.Failf("Stop did not return within 30 s at the end of the scenario (deadlock?)")
+		}
+		close(stop)
+		<-done
+	}()
 	dial := func() (net.Conn, error) {
 		if proto == "tls" {
 			roots := x509.NewCertPool()
@@ -638,7 +723,7 @@ type Many struct {
 	Rounds int    `json:"rounds"`
 }
 
-func runMany(c Many) *ev.Failure {
+func runMany(c Many) (fl *ev.Failure) {
 	in := collector.CollectorInput{Address: "127.0.0.1:0", Protocol: "tcp", MaxBufferSize: 65535}
 	if c.Proto == "tls" {
 		in.IsEncrypted, in.ServerCert, in.ServerKey = true, srvCert.CertPEM, srvCert.KeyPEM
@@ -670,7 +755,13 @@ func runMany(c Many) *ev.Failure {
 			}
 		}
 	}()
-	defer func() { cp.Stop(); close(stop); <-done }()
+	defer func() {
+		if !stopBounded(cp) && fl == nil {
+			fl = ev.Failf("Stop did not return within 30 s at the end of the scenario (deadlock?)")
+		}
+		close(stop)
+		<-done
+	}()
 	dial := func() (net.Conn, error) {
 		if c.Proto == "tls" {
 			roots := x509.NewCertPool()
@@ -777,7 +868,7 @@ func runMany(c Many) *ev.Failure {
 // with a definition the strict collector must refuse (which removes the stored template) and with
 // the valid one. Whatever interleaving results: no crash, no data race, and every data message that
 // is delivered carries exactly the records that were sent.
-func runShared(rounds int) *ev.Failure {
+func runShared(rounds int) (fl *ev.Failure) {
 	cp, err := collector.InitCollectingProcess(collector.CollectorInput{Address: "127.0.0.1:0", Protocol: "udp", MaxBufferSize: 65535, TemplateTTL: 3600})
 	if err != nil {
 		return ev.Failf("InitCollectingProcess: %v", err)
@@ -825,7 +916,13 @@ func runShared(rounds int) *ev.Failure {
 			}
 		}
 	}()
-	defer func() { cp.Stop(); close(stop); <-done }()
+	defer func() {
+		if !stopBounded(cp) && fl == nil {
+			fl = ev.Failf("Stop did not return within 30 s at the end of the scenario (deadlock?)")
+		}
+		close(stop)
+		<-done
+	}()
 	h := ref.Header{Domain: 9, ExportTime: 1700000000}
 	tplMsg := ref.TemplateMessage(h, ref.Template{ID: 256, Fields: fields})
 	bad := ref.TemplateMessage(h, ref.Template{ID: 256, Fields: append(append([]ref.Field(nil), fields...), ref.Field{ID: 20001, Ent: 4242, Len: 4, Type: ref.TOctets})})
@@ -934,7 +1031,7 @@ func runFDExhaustion(hold time.Duration) *ev.Failure {
 		c, err := net.Dial("tcp", cp.GetAddress().String())
 		if err != nil {
 			restore()
-			cp.Stop()
+			stopBounded(cp)
 			close(stopDrain)
 			<-drained
 			return nil
@@ -946,7 +1043,7 @@ func runFDExhaustion(hold time.Duration) *ev.Failure {
 	ents, err := os.ReadDir("/proc/self/fd")
 	if err != nil {
 		restore()
-		cp.Stop()
+		stopBounded(cp)
 		close(stopDrain)
 		<-drained
 		return nil
@@ -955,7 +1052,7 @@ func runFDExhaustion(hold time.Duration) *ev.Failure {
 	lim.Cur = uint64(len(ents) + 24)
 	if lim.Cur >= old.Cur || syscall.Setrlimit(syscall.RLIMIT_NOFILE, &lim) != nil {
 		restore()
-		cp.Stop()
+		stopBounded(cp)
 		close(stopDrain)
 		<-drained
 		return nil
@@ -1002,7 +1099,7 @@ func runFDExhaustion(hold time.Duration) *ev.Failure {
 // runLinkLocal: an exporter connects over an IPv6 link-local address (its address carries a zone,
 // "fe80::1%eth0"), sends, and disconnects: the message is delivered and the connection count
 // returns to zero like for any other client. Skipped when the host has no link-local address.
-func runLinkLocal(proto string) *ev.Failure {
+func runLinkLocal(proto string) (fl *ev.Failure) {
 	var ll string
 	ifs, _ := net.Interfaces()
 	for _, ifc := range ifs {
@@ -1047,7 +1144,13 @@ func runLinkLocal(proto string) *ev.Failure {
 			}
 		}
 	}()
-	defer func() { cp.Stop(); close(stop); <-done }()
+	defer func() {
+		if !stopBounded(cp) && fl == nil {
+			fl = ev.Failf("Stop did not return within 30 s at the end of the scenario (deadlock?)")
+		}
+		close(stop)
+		<-done
+	}()
 	for round := 0; round < 3; round++ {
 		var conn net.Conn
 		if proto == "tls" {
